@@ -1,5 +1,4 @@
 import Driver.Frame
-import Driver.OutCap
 import KrakenModel.Model.Rendezvous
 /- Driver for C22: replays lib/hrw.RendezvousHash transcripts.
 
@@ -146,4 +145,4 @@ def machine : Machine := { σ := St, name := "hrw", init := fun _ => some {}, st
 
 end C22
 
-def main (args : List String) : IO UInt32 := runMachinesCapped [C22.machine] args
+def main (args : List String) : IO UInt32 := runMachines [C22.machine] args
